@@ -29,10 +29,10 @@ FULL_GUARD_PARTS = ("len(indices) == n", "np.array_equal(indices, np.arange(n))"
 
 def check(prog, rep):
     factories = discover_factories(prog)
-    _alignment(prog, rep, factories)
-    _closures(prog, rep, factories)
-    _jacobian_rows(prog, rep)
-    _fast_paths(prog, rep)
+    rep.section(_alignment, prog, rep, factories)
+    rep.section(_closures, prog, rep, factories)
+    rep.section(_jacobian_rows, prog, rep)
+    rep.section(_fast_paths, prog, rep)
     rep.expect_min("R03.1", 6)
     rep.expect_min("R03.2", 24)
     rep.expect_min("R03.3", 23)
@@ -167,7 +167,11 @@ def _closures(prog, rep, factories, mode="grad", r_guard="R03.2", r_term="R03.3"
                     ok = _const_diag_ok(fi, nm)
                     rep.ob(r_guard, construct, ok, "constant diagonal: full diagonal under the full guard, otherwise set at [idx, idx] for idx in indices" if ok else "constant diagonal is not placed at the vector's own columns", loc=loc, detail="constant-diagonal")
             # ---- R03.3 term
-            term = _closure_term(cl, xarg, fi)
+            try:
+                term = _closure_term(cl, xarg, fi)
+            except AnalysisError as e:
+                rep.undecided(str(e))
+                continue
             if term is None:
                 continue
             kind, key, got = term
